@@ -32,8 +32,8 @@ theorem zt_delay (x : ℕ → K) (d : ℕ) :
   ext n; simp [coeff_X_pow_mul']
 
 /-- the unilateral transform of an ADVANCED sequence is NOT `z^d X(z)`: the samples
-    `x[0..d-1]` fall off.  (`zt_delay` has no analogue for advances; the code applies the delay
-    rule to advances — finding F17.) -/
+    `x[0..d-1]` fall off (finding F17: the code used to apply the delay rule to advances; the
+    model has the repaired behaviour: an advanced impulse contributes 0, an advanced step is u[n]). -/
 theorem zt_advance (x : ℕ → K) (d : ℕ) :
     X ^ d * PowerSeries.mk (fun n => x (n + d))
       = PowerSeries.mk x - PowerSeries.mk (fun n => if n < d then x n else 0) := by
@@ -50,7 +50,8 @@ theorem zt_mul_n (x : ℕ → K) :
 
 /-! ## 2. The rule cascade of `ZTransformer.term` produces the defining series -/
 
-/-- every term `c n^p a^n base[n]` with a non-advanced base (`Base.ok`) -/
+/-- every term `c n^p a^n base[n]`; `Base.ok` only asks `cos² b + sin² b = 1` for the sinusoids —
+    impulses and steps may have ANY integer delay or advance -/
 theorem zt_term_sound (t : CTerm K) (h : t.base.ok) :
     IsZT (fun n : ℕ => t.val n) (ztTerm t) := isZT_term t h
 
@@ -59,7 +60,7 @@ theorem zt_term_sound (t : CTerm K) (h : t.base.ok) :
 theorem zt_closed_form_sound (ts : List (CTerm K)) (h : ∀ t ∈ ts, t.base.ok) :
     IsZT (fun n : ℕ => sigVal ts n) (ztSig ts) := isZT_sig ts h
 
-example : (⟨3, 2, 1 / 2, .step 1⟩ : CTerm ℚ).base.ok := by simp [Base.ok]
+example : (⟨3, 2, 1 / 2, .step (-2)⟩ : CTerm ℚ).base.ok := by simp [Base.ok]
 example : (⟨1, 1, 2, .cos (3 / 5) (4 / 5) 1 0⟩ : CTerm ℚ).base.ok := by norm_num [Base.ok]
 
 /-- the geometric closed form, coefficient-wise: `(1 - a w) Σ a^n w^n = 1` -/
@@ -149,22 +150,37 @@ theorem recursion_is_convolution (b a : List K) (x : ℤ → K) (ic : List K) (h
 
 /-- response to initial conditions alone (`x[n] = 0` for n ≥ 0, `x[-1-i] = xic[i]`, `y[-1-i] = ic[i]`): the
     z-domain expression built by `zdomain_initial_response` (numerator `iniNum`, denominator `a`) is the
-    z-transform of the recursion's output …  Stated for `len b ≤ len a`: for longer numerators the code
-    drops the terms `b[k] x[n-k]`, k ≥ len a (observed on the real code; covered by the oracle). -/
-theorem initial_conditions_response_partial (b a ic xic : List K) (ha : a.headD 0 ≠ 0)
-    (hlen : a.length = ic.length + 1) (hb : b.length ≤ a.length) :
+    z-transform of the recursion's output, for numerators of any length (finding F23 repaired) … -/
+theorem initial_conditions_response (b a ic xic : List K) (ha : a.headD 0 ≠ 0)
+    (hlen : a.length = ic.length + 1) :
     toPS a * PowerSeries.mk (fun n : ℕ => respY b a (negSeq xic) ic n) = toPS (iniNum b a ic xic) :=
-  initial_response_ps b a ic xic ha hlen hb
+  initial_response_ps b a ic xic ha hlen
 
 /-- … hence its samples (long division) are the recursion's output, for every n -/
-theorem initial_response_samples_partial (b a ic xic : List K) (ha : a.headD 0 ≠ 0)
-    (hlen : a.length = ic.length + 1) (hb : b.length ≤ a.length) (n i : ℕ) (hi : i < n) :
+theorem initial_response_samples (b a ic xic : List K) (ha : a.headD 0 ≠ 0)
+    (hlen : a.length = ic.length + 1) (n i : ℕ) (hi : i < n) :
     (series (iniNum b a ic xic) a n).getD i 0 = respY b a (negSeq xic) ic i := by
-  have := series_unique (iniNum b a ic xic) a ha _ (initial_response_ps b a ic xic ha hlen hb) n i hi
+  have := series_unique (iniNum b a ic xic) a ha _ (initial_response_ps b a ic xic ha hlen) n i hi
   simpa using this
 
+/-- `Sequence.lfilter(b, a)` obeys `Σ_k a_k y[n-k] = Σ_l b_l x[n-l]` started at rest … -/
+theorem lfilter_satisfies_recursion (b a x : List K) (ha : a.headD 0 ≠ 0) (n : ℕ) (hn : n < x.length) :
+    (lfilterPy b a x).getD n 0 = respY b a (litZ x) (List.replicate (a.length - 1) 0) n ∧
+    bsum a (respY b a (litZ x) (List.replicate (a.length - 1) 0)) n = bsum b (litZ x) n :=
+  ⟨lfilter_getD b a x n hn, lfilter_recursion b a x ha n⟩
+
+/-- … i.e. it is the convolution of x with the impulse response of b/a -/
+theorem lfilter_is_convolution (b a x : List K) (ha : a.headD 0 ≠ 0) (n : ℕ) (hn : n < x.length) :
+    (lfilterPy b a x).getD n 0 = ∑ p ∈ Finset.antidiagonal n, hCoeff b a p.1 * litZ x p.2 :=
+  lfilter_convolution b a x ha n hn
+
+/-- `Sequence.convolve` is the convolution sum at every index of the full-length result -/
+theorem convolve_is_convolution_sum (x h : List K) (hx : x ≠ []) (hh : h ≠ []) (n : ℕ)
+    (hn : n < x.length + (h.length - 1)) :
+    (convolvePy x h).getD n 0 = convAt h (litZ x) n := convolve_getD x h hx hh n hn
+
 example : ([2, 1] : List ℚ).headD 0 ≠ 0 ∧ ([2, 1] : List ℚ).length = ([3] : List ℚ).length + 1
-    ∧ ([1, 2] : List ℚ).length ≤ ([2, 1] : List ℚ).length := by simp
+    := by simp
 
 /-! ## 5. DFT closed forms equal the defining sum, for every N and every k -/
 
@@ -172,9 +188,8 @@ example : ([2, 1] : List ℚ).headD 0 ≠ 0 ∧ ([2, 1] : List ℚ).length = ([3
     the prime field the driver computes in).  Whenever the model of `DFTTransformer.termXq` returns a
     value for a sum of terms `c n^p a^n {δ[n-d] | u[n-d] | 1}` (p ≤ 1; it returns `none` at a pole
     `a q = 1`, for p ≥ 2 and for sinusoids), that value is `Σ_{n<N} x[n] q^n`.
-    `dftOk` excludes exactly: the impulse-index wrap `d ↦ d - N` (numeric N, d > N/2) combined
-    with an `a**n` or `n` factor (finding F21), and, for symbolic N, a step starting beyond N
-    (the code warns "assuming … in interval"). -/
+    `dftOk` excludes only, for symbolic N, a step starting beyond N (the code warns
+    "assuming … in interval"); impulses are unconditional (finding F21 repaired). -/
 theorem dft_def [DecidableEq K] (numeric : Bool) (ts : List (CTerm K)) (N : ℕ) (q : K) (hq : q ^ N = 1)
     (h2 : (1 + 1 : K) ≠ 0) (hok : ∀ t ∈ ts, dftOk numeric N t)
     (v : K) (hv : dftSig numeric ts N q = some v) :
